@@ -38,6 +38,20 @@ def scale_case(case, i):
     case["caps"] = ([96] * r.randint(40, 400)) if r.random() < 0.5 else [r.choice([24, 48, 96, 72, 7, 1000]) for _ in range(r.randint(100, 500))]
     case["mode"] = "large"
 
+class OneShot:
+    """a one-shot iterator over the capacities (what iter(list) or a generator is to the library) that can still tell the monitor
+    which values it was going to yield"""
+    def __init__(self, values):
+        self.verif_values = list(values)
+        self._it = iter(list(values))
+
+    def __iter__(self):
+        return self
+
+    def __next__(self):
+        return next(self._it)
+
+
 def make_case(rng, i, tier):
     stratum = "A" if i % 2 == 0 else "B"
     chans = rng.choice([(0,), (0,), (0, 1), (0, 1, 2)])
@@ -97,6 +111,9 @@ def make_case(rng, i, tier):
         mode = "handover"
     form = ["default", "copy_false", "default", "copy_true", "default", "copy_false_positional", "default", "rel_level", "copy_false",
             "rel_level_tuple"][(i // 2) % 10]
+    if i % 17 == 3:
+        # "any list of positive capacities" handed over as a one-shot iterator / generator / range-like object
+        form = ["iter_caps", "gen_caps", "rel_level_iter", "numpy_caps"][(i // 17) % 4]
     case = {"seq": spec, "caps": caps, "stratum": stratum, "mode": mode, "prefix": prefix, "form": form}
     if i % 13 == 9:
         # the source is a motif concatenated with itself BY REFERENCE (Sequence.concatenate and Bar.to_sequence share the Message
@@ -147,6 +164,7 @@ def run(case, ctx):
     # call forms: default, explicit copy_messages=True / False (the pieces may then share Message objects with the source, but
     # the call itself must still leave the source as it was), positional, and the representation-level method
     form = case.get("form", "default")
+    fails_form = []
     LOG.n("c08.call_form." + form)
     if form == "default":
         pieces = s.split(list(case["caps"]))
@@ -156,10 +174,24 @@ def run(case, ctx):
         pieces = s.split(list(case["caps"]), copy_messages=False)
     elif form == "copy_false_positional":
         pieces = s.split(list(case["caps"]), False)
+    elif form == "iter_caps":
+        pieces = s.split(OneShot(case["caps"]))
+    elif form == "gen_caps":
+        pieces = s.split(c for c in OneShot(case["caps"]))     # a real generator: the contract is vacuous, the driver compares below
+        ref = s.copy().split(list(case["caps"]))
+        if [obs(p)["events"] for p in pieces] != [obs(p)["events"] for p in ref] or [obs(p)["dur"] for p in pieces] != [obs(p)["dur"] for p in ref]:
+            fails_form = [fail("argument_form_changes_result", {"form": form, "durations": [obs(p)["dur"] for p in pieces][:6],
+                                                                "list_form": [obs(p)["dur"] for p in ref][:6]})]
+    elif form == "numpy_caps":
+        import numpy as np
+        pieces = s.split(list(np.array(case["caps"], dtype=np.int64)))
+    elif form == "rel_level_iter":
+        from scoda.sequences.sequence import Sequence
+        pieces = [Sequence(relative_sequence=p) for p in s.rel.split(OneShot(case["caps"]))]
     else:
         from scoda.sequences.sequence import Sequence
         pieces = [Sequence(relative_sequence=p) for p in s.rel.split(tuple(case["caps"]) if form == "rel_level_tuple" else list(case["caps"]))]
-    fails = []
+    fails = list(fails_form)
     after = obs(s)
     if after["events"] != before["events"] or after["dur"] != before["dur"]:
         fails.append(fail("source_changed(sequence level)", None))
